@@ -96,3 +96,12 @@ Example scrub_unsynced_parity_eio_marks_bad :
              [mkST true true true false false (SdOk true); mkST true false true false true (SdOk true)] [SpIoCont] in
   sc_info r = mkInfo 8 true false true /\ sc_nio r = 1 /\ sc_bail r = false.
 Proof. vm_compute. repeat split. Qed.
+(* one of three parity levels unreadable (EIO), the two others read and equal: the stripe is NOT booked as scrubbed: marked bad, time kept,
+   the failed read counted; the same on a stripe already bad.  (scrub_read_error_safe states it for any list of per-level outcomes.) *)
+Example scrub_partial_parity_eio_marks_bad :
+  let disks := [mkST true false true false true (SdOk true); mkST true false true false true (SdOk true)] in
+  let r := scrub_stripe 100 0 77 (mkInfo 8 false false true) disks [SpOk true; SpIoCont; SpOk true] in
+  let r' := scrub_stripe 100 0 77 (mkInfo 8 true false false) disks [SpIoCont; SpOk true; SpIoCont] in
+  sc_info r = mkInfo 8 true false true /\ sc_nio r = 1 /\ sc_bail r = false /\
+  sc_info r' = mkInfo 8 true false false /\ sc_nio r' = 2 /\ sc_bail r' = false.
+Proof. vm_compute. repeat split. Qed.
